@@ -445,6 +445,40 @@ def rule_D(ck, units):
                                              'of exactly coarse_enough rows is neither coarsened nor solved directly' % (f.where(bad[0][0]), bad[0][1], bad[0][2]))
 
 
+def rule_F(ck, units):
+    ck.rule('F.coarse-operator-sorted', 'every matrix obtained from coarse_operator inside the hierarchy code (step_down at setup, level::rebuild afterwards) is passed to sort_rows before it '
+                                        'is returned to become the next level: setup and rebuild hand the same (row-sorted) matrix to order-sensitive smoothers', 2)
+    for u in units.values():
+        an = Analyzer([u])
+        for f in u.funcs:
+            if f.cfg is None or not f.cls or not f.cls.startswith(('amgcl::amg::level', 'amgcl::mpi::amg::level')):
+                continue
+            for c in f.calls():
+                if c.get('m') != 'coarse_operator':
+                    continue
+                # the variable that receives the result
+                pi = f.parent.get(c['i'])
+                p = f.nodes.get(pi) if pi is not None else None
+                while p is not None and p['k'] in ('cast', 'ctor', 'defarg'):
+                    p = f.nodes.get(f.parent.get(p['i']))
+                tgt = None
+                if p is not None and p['k'] == 'bin' and p['op'] == '=':
+                    tgt = an.root_of_expr(f, p['x'])
+                elif p is not None and p['k'] == 'decl':
+                    for v in p['v']:
+                        if v.get('init') is not None and any(x is c for x in walk(v['init'])):
+                            tgt = ('var', v['d'])
+                if tgt is None:
+                    continue
+                sorted_after = [s_ for s_ in f.calls() if (s_.get('f') or '').endswith('sort_rows') and s_['i'] > c['i'] and an.root_of_expr(f, s_['a'][0]) == tgt]
+                key = '%s|%s' % (f.q, f.where(c).split(':')[0])
+                if f.cls.startswith('amgcl::mpi'):
+                    continue      # distributed matrices are sorted by their own product
+                ck.ob('F.coarse-operator-sorted', '%s' % f.q, f.where(c), bool(sorted_after),
+                      '' if sorted_after else 'the coarse operator computed at %s is not passed to sort_rows: the next level is built from unsorted rows (its sibling %s sorts it)' % (
+                          f.where(c), 'level::rebuild' if f.q.endswith('step_down') else 'level::step_down'))
+
+
 def main(tier):
     ck = Check('C03', tier, 'C03 (clauses): every coarse level is the (rescaled) Galerkin product of the level\'s own operators; rebuild re-uses the stored transfer operators through the same formula.')
     T = os.path.join(ir.VERIF, 'tus')
@@ -456,6 +490,11 @@ def main(tier):
     rule_B(ck, units)
     rule_C(ck, units)
     rule_D(ck, units)
+    rule_F(ck, units)
+    # the product kernels behind R*(A*P): same operands to either SpGEMM kernel, and (entry of left matrix) * (entry of right matrix) (shared with C08)
+    import c08
+    c08.rule_dispatch(ck, units)
+    c08.rule_order(ck, units)
     ck.assumptions += ['backend::product / transpose / scale compute the product, adjoint and scaling (C08, not decided here)',
                        'strict decrease of level sizes and bitwise equality of actions after rebuild are not decided']
     return ck.finish()
